@@ -497,6 +497,45 @@ func runC12(c *drv.Ctx) error {
 				}
 			}
 		}
+		// the same histories on the parser generated with -noast: no tree, no memo table, but
+		// the captured text and the user's state are the parser's too, and Reset starts afresh
+		if len(c.Violations) == 0 {
+			nh := make([][][]proto.Step, len(cases))
+			for i, cs := range cases {
+				if cs.G.Count(gram.KAct) == 0 {
+					continue
+				}
+			hist:
+				for _, h := range hists[i] {
+					if len(h) > 12 {
+						continue
+					}
+					for _, st := range h {
+						if len(st.Input) > 200 {
+							continue hist
+						}
+						if r := refpeg.Run(cs.G, st.Entry, []rune(string(st.Input)), 20000); r.Budget {
+							continue hist
+						}
+					}
+					nh[i] = append(nh[i], h)
+				}
+			}
+			resN, err := evalHistories(c, cases, nh, []proto.Mode{{}, {Size: 5}}, true, "n0")
+			if err != nil {
+				return err
+			}
+			for ci, cs := range cases {
+				for hi, h := range nh[ci] {
+					c.Stats.Class("history_on_noast_parser")
+					if ev := resN[ci][hi]; ev != nil && len(c.Violations) == 0 {
+						ev.variant = "n0"
+						ev.what = "[-noast] " + ev.what
+						c.AddViolation(*shrinkHist(c, "C12", cs, h, ev))
+					}
+				}
+			}
+		}
 	}
 	c.Stats.Extra["modes"] = func() []string {
 		var s []string
